@@ -1318,8 +1318,11 @@ func genSegfault(r *rand.Rand, n int, tier string) []string {
 		add(f, "cut@a0", "cut@a1", "cut@a7", "cut@m250", "cut@m500", "cut@m900", "cut@e1", "cut@e2", "xor@a0=1", "xor@a0=128", "xor@a1=255", "xor@a2=4", "xor@a6=1", "xor@a10=32", "xor@m200=8", "xor@m400=1", "xor@m600=64", "xor@m800=2", "xor@e1=1", "xor@e2=16", "set@m500=0", "set@m100=255")
 	}
 	add("sst", "xor@s:n:e16=1", "xor@s:n:e9=64", "xor@s:n:a2=1", "cut@s:n:a0", "xor@s:s:a2=3")
-	// the whole file gone (not for the column files and the metadata: a missing column file is a column the segment does
-	// not have, outside the statement, which speaks of truncated and altered files)
+	// the whole file gone (not for the metadata).  A missing file of a column that the segment's metadata lists is not a
+	// column the events lack: before patch c18-7 `s!="w00"` then held for every event of the segment (wrong-event-returned,
+	// the error only logged); now no record of the segment is matched and the error is logged
+	add("csg:s", "del")
+	add("csg:u", "del")
 	add("bsu", "del")
 	add("sst", "del")
 	add("cmi:s", "del")
@@ -1367,7 +1370,7 @@ func genSegfault(r *rand.Rand, n int, tier string) []string {
 	core := []string{"csg:s/xor@c1p500=4", "csg:u/xor@c1p500=4", "csg:timestamp/cut@e1", "csg:timestamp/xor@c1p500=4", "csg:n/cut@c1t1", "csg:k/xor@c1h5=16",
 		"csg:s/cut@c1d1", "csg:_vid/xor@c1p500=4", "cmi:s/xor@m300=16", "cmi:n/cut@m500", "bsu/xor@m400=1", "bsu/cut@m500", "sst/xor@m400=1", "sst/cut@e1",
 		"sfm/xor@m400=1", "sfm/cut@m500", "segmeta/xor@m400=1", "segmeta/cut@m500", "pqmr:0/xor@a9=1", "crup:0/xor@a9=1", "csg:s/none",
-		"sst/cut@a1", "sst/xor@a0=255", "bsu/del", "sst/del", "sst/xor@s:n:e16=1"}
+		"sst/cut@a1", "sst/xor@a0=255", "bsu/del", "sst/del", "sst/xor@s:n:e16=1", "csg:s/del", "csg:u/del"}
 	for i, c := range core {
 		if len(out) < n {
 			out = append(out, line(variants[i%2], i%2, c))
